@@ -40,7 +40,7 @@ def gen_cases(tier, seed):
         nt = int([0, 2, 3, 4][k % 4]); nh = int([0, 1, 2][k % 3]) if nt == 0 or k % 2 else 0
         dev = zoo.gen_device(rng, n_terminals=nt, n_holes=nh, probes=int([0, 2, 3][k % 3]) , size="small", film_kind=None if nt == 0 else "box")
         dev["layer"]["conductivity"] = [None, 3.5][k % 2]
-        dev["length_units"] = ["um", "nm"][k % 2] if nt == 0 else "um"
+        dev["length_units"] = ["um", "nm", "mm"][(k // 2) % 3]  # (a label for the round trip; the numbers are not rescaled)
         cases.append({"kind": "device", "device": dev, "solve": bool(k % 4 == 0), "seed": int(rng.integers(1 << 30)), "cost": 4})
     ns = 14 if tier == "quick" else 150
     for k in range(ns):
@@ -63,6 +63,14 @@ def gen_cases(tier, seed):
                  "currents": S.current_spec(rng, dev, o, ["const", "callable", "decimal"][k % 3] if nt else "none", strength=0.1),
                  "epsilon": {"kind": ["one", "const", "spatial", "time"][k % 4], "value": 0.6}}
         cases.append({"kind": "solution", "device": dev, "options": o, "drive": drive, "seed": int(rng.integers(1 << 30)), "cost": 8})
+    for k in range(1 if tier == "quick" else 4):
+        # output_file given as a RELATIVE path (the process works in another directory)
+        dev = zoo.gen_device(rng, n_terminals=int([2, 0][k % 2]), probes=0, size="tiny", smooth=0)
+        dev["length_units"] = ["nm", "um"][k % 2]
+        o = S.base_options(rng, adaptive=True, steps=30)
+        o.update(output="file", save_every=5)
+        drive = {"A": S.field_spec(rng, dev, o, "uniform", b=0.2), "currents": {"kind": "none"}, "epsilon": {"kind": "one"}}
+        cases.append({"kind": "solution", "relative_output": True, "device": dev, "options": o, "drive": drive, "seed": int(rng.integers(1 << 30)), "cost": 8})
     for k in range(2 if tier == "quick" else 8):
         # memory-only Solution (temp output) of a screening run on a device without probe points: every per-step record that
         # exists must survive to_hdf5 / from_hdf5 (screening_iterations exists, mu / theta do not)
@@ -364,6 +372,39 @@ def cmp_solution(cx, a, b, what):
             cx.viol("loaded_parameter_type_differs", "loaded_parameter_type_differs", {"what": what, "name": name, "types": [type(pa).__name__, type(pb).__name__]})
 
 
+def _relative_output_case(spec, workdir):
+    """solve() with output_file='results/run.h5' relative to the working directory; the loaded Solution carries the same options."""
+    import tdgl
+
+    cx = Ctx()
+    dev, why = zoo.try_build_device(spec["device"])
+    if dev is None:
+        shutil.rmtree(workdir, ignore_errors=True)
+        return {"violations": [], "counters": {"refused_mesh": 1}, "classes": ["refused"], "nontrivial": False}
+    sp = sim.resolve_auto_dt(spec, dev)
+    cwd = os.getcwd()
+    os.chdir(workdir)
+    try:
+        os.makedirs("results", exist_ok=True)
+        opts = sim.build_options(sp["options"], output_file=os.path.join("results", "run.h5"))
+        avp, tc, eps = sim.build_drive(sp["drive"], dev, opts)
+        sol = tdgl.solve(dev, opts, applied_vector_potential=avp, terminal_currents=tc, disorder_epsilon=eps)
+        loaded = tdgl.Solution.from_hdf5(sol.path)
+        cmp_solution(cx, sol, loaded, "relative_output")
+        cx.cnt("option_field_checks")
+        if loaded.options.output_file != sol.options.output_file:
+            cx.viol("option_field_differs", "option_field_differs", {"what": "relative_output", "field": "output_file", "original": repr(sol.options.output_file), "loaded": repr(loaded.options.output_file)})
+        if dataclasses.asdict(loaded.options) != dataclasses.asdict(sol.options):
+            cx.viol("options_not_equal", "option_field_differs", {"what": "relative_output"})
+    except Exception as exc:  # noqa: BLE001
+        return {"status": "harness_error", "error": "relative-output case failed: " + repr(exc)[:300]}
+    finally:
+        os.chdir(cwd)
+        shutil.rmtree(workdir, ignore_errors=True)
+    return {"violations": cx.V, "counters": cx.C, "classes": ["solution", "output=relative_path"], "nontrivial": cx.C.get("option_field_checks", 0) > 0,
+            "sample": {"option_fields": cx.C.get("option_field_checks", 0)}}
+
+
 def case_solution(spec):
     import tdgl
 
@@ -371,6 +412,8 @@ def case_solution(spec):
     workdir = tempfile.mkdtemp(prefix="vt_c14s_")
     keep = os.path.join(workdir, "keep")
     os.makedirs(keep)
+    if spec.get("relative_output"):
+        return _relative_output_case(spec, workdir)
     rr = sim.run_sim(spec, [], workdir=os.path.join(workdir, "run") if False else None, keep_dir=True)
     if rr.refused:
         shutil.rmtree(workdir, ignore_errors=True)
@@ -456,6 +499,45 @@ def case_parameter(spec):
     tmp = tempfile.mkdtemp(prefix="vt_c14p_")
     try:
         xs, ys, zs = rng.uniform(-1, 1, 5), rng.uniform(-1, 1, 5), rng.uniform(-1, 1, 5)
+        # tdgl.parameter.Constant leaves (2-D and 3-D) alone and inside composites, through pickle / cloudpickle / a Solution file
+        import cloudpickle
+        from tdgl.parameter import Constant
+
+        consts = {"C2": lambda: Constant(1.5), "C3": lambda: Constant(-0.75, dimensions=3)}
+        exprs = [("C3",), ("C2",), ("C3", "*", 2.0), (3, "+", "C3"), ("C3", "-", "P3"), ("P3", "*", "C3"), ("C2", "+", "P2"), (("C3", "*", "PT"), "+", "C3")]
+
+        def cbuild(e):
+            if isinstance(e, tuple) and len(e) == 1:
+                return cbuild(e[0])
+            if isinstance(e, tuple):
+                return c16.OPS[e[1]](cbuild(e[0]), cbuild(e[2]))
+            if isinstance(e, str):
+                return consts[e]() if e in consts else c16.make_leaf(e)
+            return e
+
+        for e in exprs:
+            obj = cbuild(e)
+            three_d = "3" in repr(e) or "PT" in repr(e)
+            kw = {"t": 0.37} if "PT" in repr(e) else {}
+            args = (xs, ys, zs) if three_d else (xs, ys)
+            want = obj(*args, **kw)
+            s2 = copy.copy(base)
+            s2.applied_vector_potential = obj
+            p2 = os.path.join(tmp, "const.h5")
+            # (the standard pickler cannot serialise a bare Constant - its function is a local closure; the library itself uses
+            # cloudpickle, and composites cloudpickle their operands, so plain pickle is demanded of composites only)
+            for how, fn in ((("pickle", lambda o: pickle.loads(pickle.dumps(o))),) if len(e) == 3 else ()) + (("cloudpickle", lambda o: cloudpickle.loads(cloudpickle.dumps(o))), ("deepcopy", copy.deepcopy),
+                            ("solution_file", lambda o: (s2.to_hdf5(p2), tdgl.Solution.from_hdf5(p2).applied_vector_potential)[1])):  # noqa: E501
+                cx.cnt("parameter_value_checks")
+                try:
+                    if os.path.exists(p2):
+                        os.remove(p2)
+                    clone = fn(obj)
+                    got = clone(*args, **kw)
+                    if not np.array_equal(np.asarray(got), np.asarray(want)) or not (clone == obj):
+                        cx.viol("loaded_parameter_value_differs", "loaded_parameter_value_differs", {"expr": repr(e), "how": how})
+                except Exception as exc:  # noqa: BLE001
+                    cx.viol("loaded_parameter_raises", "loaded_parameter_raises", {"expr": repr(e), "how": how, "error": repr(exc)[:200]})
         for i, tr in enumerate(spec["trees"]):
             tree = c16._tuplify(tr)
             try:
